@@ -153,6 +153,40 @@ def _replay_pipeline(chk, h):
                       dict(ctx, got=seen, want=want_seen))
 
 
+def _replay_pipeline_resizing(chk, h):
+  """A function whose output has more / fewer rows than its input (explode, drop): batch_size still re-batches
+  its OUTPUT stream - Rebatch.tla's declarative layer (Chunks) applied to the rows the function emits."""
+  from ml_metrics._src.chainables import transform
+  sizes, b = h['sizes'], h['B']
+  if h['pad'] or not b:
+    return
+  batches = [list(col[0]) for col in _mk_batches(sizes, 1, 'list')]
+  rows = [v for bt in batches for v in bt]
+
+  def dup(xs):
+    return [y for x in xs for y in (x, x + 1)]
+
+  def drop(xs):
+    return [x for x in xs if (x // 10) % 2 == 0]
+
+  for name, fn, out_rows in (('explode', dup, [y for x in rows for y in (x, x + 1)]),
+                             ('drop', drop, [x for x in rows if (x // 10) % 2 == 0])):
+    want = [out_rows[i:i + b] for i in range(0, len(out_rows), b)]          # Chunks(out_rows, B)
+    for fnb in sorted({0, 2, b}):
+      ctx = dict(kind='rebatch-pipeline', history=h, fn_batch_size=fnb, fn=name)
+      try:
+        p = transform.TreeTransform.new(name='p').apply(fn=fn, fn_batch_size=fnb, batch_size=b)
+        got = [list(x) for x in p.make().iterate(batches)]
+      except Exception as e:  # pylint: disable=broad-exception-caught
+        chk.violation(f'pipeline:{name}:exception:{type(e).__name__}', f'{e!r} sizes={sizes} B={b} fn_batch_size={fnb}', ctx)
+        continue
+      got = [g for g in got if g] if not want else got
+      if got != want:
+        kind = 'rows' if [v for g in got for v in g] != out_rows else 'chunk-sizes'
+        chk.violation(f'pipeline:{name}:batch_size:{kind}' + (':fn_batch_size=batch_size' if fnb == b else ''),
+                      f'sizes={sizes} B={b} fn_batch_size={fnb} fn={name}: got {got} want {want}', dict(ctx, got=got, want=want))
+
+
 def body(chk):
   consts = _bounds(chk.tier)
   chk.coverage['bounds'] = {k: (sorted(v) if isinstance(v, set) else v) for k, v in consts.items()}
@@ -185,6 +219,7 @@ def body(chk):
   for h in hs:
     drift += _replay(chk, h, containers)
     _replay_pipeline(chk, h)
+    _replay_pipeline_resizing(chk, h)
     chk.replayed()
   chk.coverage['drift'] = drift
   if drift:
